@@ -9,6 +9,7 @@ import (
 	"crypto/x509"
 	"encoding/json"
 	"fmt"
+	"github.com/google/gce-tcb-verifier/keys"
 	"hash/fnv"
 	"math/rand"
 	"os"
@@ -49,9 +50,17 @@ type issuedDoc struct {
 // endorseReal runs endorse.VirtualFirmware with a seeded request through localnonvcs and returns
 // the written endorsement file.
 func endorseReal(a *Authority, r *rand.Rand, at time.Time) (*issuedDoc, error) {
+	return endorseRealWith(a, r, at, nil)
+}
+
+// endorseRealWith: wrap (if set) may replace the loaded CA / signer with doubles.
+func endorseRealWith(a *Authority, r *rand.Rand, at time.Time, wrap func(*keys.Context)) (*issuedDoc, error) {
 	kc, err := a.Loaded()
 	if err != nil {
 		return nil, err
+	}
+	if wrap != nil {
+		wrap(kc)
 	}
 	dir, err := os.MkdirTemp("", "vk-c03-")
 	if err != nil {
@@ -155,6 +164,19 @@ func verifyDoc(d *issuedDoc, root *x509.Certificate) []string {
 			if err := verify.Endorsement(d.bytes, &verify.Options{RootsOfTrust: roots, Now: mid, SNP: &verify.SNPOptions{Measurement: m}}); err != nil {
 				bad = append(bad, fmt.Sprintf("SNP measurement listed for %d VMSAs is rejected without a named count: %v", n, err))
 			}
+		}
+	}
+	// the same through the SNP validator closure a relying party registers with go-sev-guest: the
+	// caller's verification time and count apply there as well
+	if g.SevSnp != nil {
+		for n, m := range g.SevSnp.Measurements {
+			att := &sevsnp.Attestation{Report: &sevsnp.Report{Measurement: m}}
+			for _, t := range []time.Time{lo, hi} {
+				if err := verify.SNPValidateFunc(&verify.Options{RootsOfTrust: roots, Now: t, SNP: &verify.SNPOptions{ExpectedLaunchVMSAs: n}})(att, d.bytes); err != nil {
+					bad = append(bad, fmt.Sprintf("the SNP validator rejects the measurement listed for %d VMSAs at %v (validity %v..%v): %v", n, t.Format(time.RFC3339), lo.Format(time.RFC3339), hi.Format(time.RFC3339), err))
+				}
+			}
+			break
 		}
 	}
 	if g.SevSnp != nil && len(g.SevSnp.SvsmMeasurement) > 0 {
@@ -269,10 +291,10 @@ func RunC03(run *vk.Run) {
 		for ci, cb := range combos {
 			if cb.KM == "memkm" && cb.CA == "gcsca" {
 				// handled below (own sampling rule)
-			} else if run.IsQuick() && (nh+int(run.Seed)+ci)%6 != 0 {
+			} else if run.IsQuick() && !vk.Pick(nh*8+ci, run.Seed, 6) {
 				continue
 			}
-			if !run.IsQuick() && ci > 0 && (nh+int(run.Seed)+ci)%4 != 0 {
+			if !run.IsQuick() && ci > 0 && !vk.Pick(nh*8+ci, run.Seed+1, 4) {
 				continue
 			}
 			cur := roots[cb]
@@ -287,10 +309,10 @@ func RunC03(run *vk.Run) {
 						collide++
 					}
 				}
-				if collide < 2 && (nh+int(run.Seed))%(6*7) != 0 {
+				if collide < 2 && !vk.Pick(nh, run.Seed+2, 6*7) {
 					continue
 				}
-				if collide >= 2 && run.IsQuick() && (nh+int(run.Seed))%3 != 0 {
+				if collide >= 2 && run.IsQuick() && !vk.Pick(nh, run.Seed+3, 3) {
 					continue
 				}
 				lin := &node{kids: map[string]*node{}}
@@ -364,7 +386,7 @@ func RunC03(run *vk.Run) {
 				err := b.Exec(&Tap{}, cs.args(at)...)
 				if (err == nil) != (want == "ok") && !(b.CA == "memca" && err == nil) { // memca keeps no objects: nothing to collide with
 					run.AddDrift(1)
-					fmt.Printf("DRIFT property=C03 command %v on %v after %v: real result %v, KeyAuthority.tla says %s\n", cs, b.Combo, hist, err, want)
+					fmt.Fprintf(vk.Stdout, "DRIFT property=C03 command %v on %v after %v: real result %v, KeyAuthority.tla says %s\n", cs, b.Combo, hist, err, want)
 				}
 				if err != nil && b.LongLived {
 					// a failed command ends the long-running process (C10 speaks about the reloaded
@@ -433,6 +455,63 @@ func RunC03(run *vk.Run) {
 		walk(a, nil, nil, roots[combo], 0, nil)
 	}
 	wg.Wait()
+	// a rotation that lands while an endorsement is being produced (in-memory authority, whose
+	// objects the two share): at every interface call of the endorse pipeline in turn a complete
+	// rotation is run; whatever the pipeline then writes must verify (it may also fail)
+	{
+		a, err := NewAuthority(Combo{"memkm", "memca"})
+		if err != nil {
+			run.Infra(err)
+			return
+		}
+		defer a.Close()
+		if err := a.Exec(&Tap{}, "bootstrap", "--timestamp", ts(T0)); err != nil {
+			run.Infra(err)
+			return
+		}
+		root, err := RootOf(a)
+		if err != nil {
+			run.Infra(err)
+			return
+		}
+		probe := &Tap{}
+		wrapWith := func(t *Tap) func(*keys.Context) {
+			return func(kc *keys.Context) {
+				kc.CA = &CA{CertificateAuthority: kc.CA, T: t}
+				kc.Signer = &Signer{Signer: kc.Signer, T: t}
+			}
+		}
+		if _, err := endorseRealWith(a, rand.New(rand.NewSource(run.Seed)), Tn(1), wrapWith(probe)); err != nil {
+			run.Infra(fmt.Errorf("probe endorsement fails: %v", err))
+			return
+		}
+		for k := 1; k <= len(probe.Calls); k++ {
+			b, err := a.Clone()
+			if err != nil {
+				run.Infra(err)
+				return
+			}
+			fired := false
+			var rerr error
+			t := &Tap{}
+			t.OnCall = func(n int, name string) {
+				if n == k && !fired {
+					fired = true
+					rerr = b.Exec(&Tap{}, "rotate", "--timestamp", ts(Tn(2)))
+				}
+			}
+			d, eerr := endorseRealWith(b, rand.New(rand.NewSource(run.Seed)), Tn(1), wrapWith(t))
+			if eerr == nil && d != nil {
+				for _, m := range verifyDoc(d, root) {
+					run.Violation("issued-does-not-verify:concurrent-rotation", fmt.Sprintf("an endorsement produced while a rotation completed at interface call %d (%s) of the pipeline (rotation result: %v): %s", k, probe.Calls[k-1], rerr, m), map[string]any{"call": k, "call_name": probe.Calls[k-1]})
+					break
+				}
+			}
+			run.Case(fmt.Sprintf("concurrent-rotation:%d", k), true)
+			b.Close()
+		}
+		run.Extra["concurrent_rotation_positions"] = len(probe.Calls)
+	}
 	run.Exhaustive = !run.IsQuick()
 	run.Rule = "every history bootstrap . (rotate(serial override, overwrite) | endorse)* of the tier's length emitted by TLC from KeyAuthority.tla (quick: a seeded sixth per combination) is executed on the real commands and endorse.VirtualFirmware with seeded requests (technologies, VMSA counts, products, shapes, provenance, timestamps, candidate names); after every step every endorsement issued so far is re-verified with verify.Endorsement at both ends and inside the validity, every listed measurement is checked for its configuration, and the openssl flow is redone over the inspect outputs; non-trivial = at least one endorsement verified"
 }
